@@ -6,6 +6,7 @@ CONSTANT MinLens = {0}
 CONSTANT Lims = {0}
 CONSTANT AOs = {FALSE}
 CONSTANT MaxPending = 0
+CONSTANT MaxInter = 2
 CONSTANT Acts <- ATrace
 CONSTANT RecordReads = TRUE
 CONSTANT HitSteps = TRUE
